@@ -34,8 +34,17 @@ Lemma vupdate_done st m kw st' :
     /\ hist st' = hist_push m (row_update (sort_cols kw) r) (hist st).
 Proof.
   unfold vupdate. destruct (row_of m (m_tbl st)) as [r|]; [|discriminate].
-  destruct (validate kw) eqn:E; simpl; intros H; inversion H; subst; clear H.
+  destruct (validate kw) eqn:E; simpl; [|discriminate].
+  destruct (a_conflict (Some m) (sort_cols kw) (m_tbl st)); intros H; inversion H; subst; clear H.
   exists r. repeat split; reflexivity.
+Qed.
+
+(* an update refused by validation changes nothing at all (6e91999) *)
+Lemma vupdate_invalid st m kw st' : vupdate st m kw = (st', VExn XInvalid) -> st' = st.
+Proof.
+  unfold vupdate. destruct (row_of m (m_tbl st)) as [r|]; [|discriminate].
+  destruct (validate kw); simpl; [|intros H; inversion H; reflexivity].
+  destruct (a_conflict _ _ _); discriminate.
 Qed.
 
 Lemma versions_of_app m st st' ver :
@@ -43,11 +52,14 @@ Lemma versions_of_app m st st' ver :
   versions_of m st' = versions_of m st ++ (if Z.eqb (v_master ver) m then [ver] else []).
 Proof. unfold versions_of. intros ->. rewrite filter_app. reflexivity. Qed.
 
-Lemma vupdate_wf st m kw : vwf st -> validate kw = true \/ True -> vwf (fst (vupdate st m kw)).
+Lemma vupdate_wf st m kw : vwf st -> vwf (fst (vupdate st m kw)).
 Proof.
-  intros [Hr Hv] _. unfold vupdate. destruct (row_of m (m_tbl st)) as [r|] eqn:Er; [|split; assumption].
+  intros [Hr Hv]. unfold vupdate. destruct (row_of m (m_tbl st)) as [r|] eqn:Er; [|split; assumption].
   destruct (Hr m r Er) as [Hrv Hrf].
-  destruct (validate kw) eqn:E; simpl.
+  destruct (validate kw) eqn:E; simpl; [|split; assumption].
+  destruct (a_conflict (Some m) (sort_cols kw) (m_tbl st)); simpl.
+  - split; simpl; [exact Hr|].
+    intros ver Hin. apply in_app_or in Hin. destruct Hin as [Hin|[<-|[]]]; [auto|simpl; auto].
   - split; simpl.
     + intros m' r'. rewrite row_of_tbl_update. destruct (row_of m' (m_tbl st)) as [r0|] eqn:E0; [|discriminate].
       intros H. inversion H; subst; clear H. destruct (Hr m' r0 E0) as [H1 H2].
@@ -55,8 +67,6 @@ Proof.
       * apply validate_row_update; [apply validate_sort_cols; exact E|exact H1].
       * apply row_update_keeps_full. exact H2.
     + intros ver Hin. apply in_app_or in Hin. destruct Hin as [Hin|[<-|[]]]; [auto|simpl; auto].
-  - split; simpl; [exact Hr|].
-    intros ver Hin. apply in_app_or in Hin. destruct Hin as [Hin|[<-|[]]]; [auto|simpl; auto].
 Qed.
 
 Lemma vstep_wf st o : vwf st -> vwf (fst (vstep st o)).
@@ -64,6 +74,7 @@ Proof.
   intros Hw. destruct o as [kw0|m c v|m kw0|vid]; unfold vstep.
   - destruct (fill_defaults all_cols (mk_kw kw0)) as [kw2|] eqn:Ef; [|exact Hw].
     destruct (validate kw2) eqn:Ev; simpl; [|exact Hw].
+    destruct (a_conflict None kw2 (m_tbl st)); simpl; [exact Hw|].
     destruct Hw as [Hr Hv]. split; simpl; [|exact Hv].
     intros m r. rewrite row_of_app. destruct (row_of m (m_tbl st)) as [r0|] eqn:E0.
     + intros H. inversion H; subst. exact (Hr m r E0).
@@ -75,11 +86,14 @@ Proof.
   - destruct (find_version vid (v_tbl st)) as [ver|]; [apply vupdate_wf; auto|exact Hw].
 Qed.
 
-(* an update that cannot fail validation keeps the history invariant *)
-Lemma vupdate_inv st m kw : vwf st -> vinv st -> validate kw = true -> vinv (fst (vupdate st m kw)).
+(* an update that the database does not refuse keeps the history invariant
+   (refused by validation: nothing happens) *)
+Lemma vupdate_inv st m kw :
+  vwf st -> vinv st -> snd (vupdate st m kw) <> VExn XDuplicate -> vinv (fst (vupdate st m kw)).
 Proof.
-  intros Hw [Hb Hn Hh] Hk. unfold vupdate. destruct (row_of m (m_tbl st)) as [r|] eqn:Er; [|split; assumption].
-  rewrite Hk. simpl.
+  intros Hw [Hb Hn Hh]. unfold vupdate. destruct (row_of m (m_tbl st)) as [r|] eqn:Er; [|split; assumption].
+  destruct (validate kw) eqn:Hk; simpl; [|split; assumption].
+  destruct (a_conflict (Some m) (sort_cols kw) (m_tbl st)); simpl; [intros Hx; contradiction|]. intros _.
   set (ver := {| v_id := v_next st; v_master := m; v_vals := r |}).
   set (st' := {| m_tbl := tbl_update m (sort_cols kw) (m_tbl st); m_next := m_next st; v_tbl := v_tbl st ++ [ver];
                  v_next := v_next st + 1; hist := hist_push m (row_update (sort_cols kw) r) (hist st) |}).
@@ -103,11 +117,15 @@ Proof.
       rewrite Z.eqb_sym, E, app_nil_r. rewrite hist_get_push_other by exact Hne. exact (Hh m' r0 E0).
 Qed.
 
-Lemma vstep_inv st o : vwf st -> vinv st -> vop_ok o = true -> vinv (fst (vstep st o)).
+Lemma vstep_inv st o :
+  vwf st -> vinv st ->
+  db_refused {| w_pre := st; w_op := o; w_out := snd (vstep st o); w_post := fst (vstep st o) |} = false ->
+  vinv (fst (vstep st o)).
 Proof.
-  intros Hw Hi Ho. destruct o as [kw0|m c v|m kw0|vid]; unfold vstep.
+  intros Hw Hi Ho. destruct o as [kw0|m c v|m kw0|vid]; unfold db_refused in Ho; cbn [w_op w_out] in Ho; unfold vstep in *.
   - destruct (fill_defaults all_cols (mk_kw kw0)) as [kw2|] eqn:Ef; [|exact Hi].
     destruct (validate kw2) eqn:Ev; simpl; [|exact Hi].
+    destruct (a_conflict None kw2 (m_tbl st)); simpl; [exact Hi|].
     destruct Hi as [Hb Hn Hh].
     assert (Hfresh : row_of (m_next st) (m_tbl st) = None).
     { destruct (row_of (m_next st) (m_tbl st)) as [r|] eqn:E; [|reflexivity]. pose proof (Hb _ _ E). lia. }
@@ -127,11 +145,10 @@ Proof.
       * destruct (Z.eqb m (m_next st)) eqn:E; [|discriminate]. apply Z.eqb_eq in E. subst m.
         intros H. inversion H; subst r. destruct (Hn _ Hfresh) as [H1 H2].
         unfold versions_of in H1. rewrite H1. unfold hist_of in H2. rewrite hist_get_push_same, H2. reflexivity.
-  - apply vupdate_inv; try assumption. simpl in Ho. unfold validate. simpl. rewrite Ho. reflexivity.
-  - apply vupdate_inv; assumption.
+  - apply vupdate_inv; try assumption. intros Hx. rewrite Hx in Ho. discriminate.
+  - apply vupdate_inv; try assumption. intros Hx. rewrite Hx in Ho. discriminate.
   - destruct (find_version vid (v_tbl st)) as [ver|] eqn:Ef; [|exact Hi].
-    apply vupdate_inv; try assumption.
-    destruct (find_version_In _ _ _ Ef) as [Hin _]. destruct Hw as [_ Hv]. exact (proj1 (Hv ver Hin)).
+    apply vupdate_inv; try assumption. intros Hx. rewrite Hx in Ho. discriminate.
 Qed.
 
 (* ------------------------------------------------------------------ histories *)
@@ -151,18 +168,20 @@ Proof.
   - apply (IH (fst (vstep st o))); [apply vstep_wf; exact Hw|exact H].
 Qed.
 
-Lemma vrun_inv : forall ops st, vwf st -> vinv st -> vguard ops = true ->
+Lemma vrun_inv : forall ops st, vwf st -> vinv st -> vguard_from st ops = true ->
   forall w, In w (vrun st ops) -> vinv (w_pre w) /\ vinv (w_post w).
 Proof.
   induction ops as [|o rest IH]; intros st Hw Hi Hg w H; simpl in H; [contradiction|].
-  simpl in Hg. apply andb_true_iff in Hg. destruct Hg as [Hg1 Hg2].
+  unfold vguard_from in Hg. simpl in Hg. apply andb_true_iff in Hg. destruct Hg as [Hg1 Hg2].
+  apply negb_true_iff in Hg1.
   destruct H as [<-|H]; simpl.
   - split; [exact Hi|apply vstep_inv; assumption].
   - apply (IH (fst (vstep st o))); [apply vstep_wf; exact Hw|apply vstep_inv; assumption|exact Hg2|exact H].
 Qed.
 
-(* C20_history_inv: after every step of a history without refused updates,
-   for every master: its versions followed by its row are its history *)
+(* C20_history_inv: after every step of a history in which the database
+   refuses no update, for every master: its versions followed by its row are
+   its history *)
 Lemma hist_inv ops w m r :
   vguard ops = true -> In w (vrun vinit ops) -> row_of m (m_tbl (w_post w)) = Some r ->
   map v_vals (versions_of m (w_post w)) ++ [r] = hist_of m (w_post w).
@@ -236,21 +255,37 @@ Proof.
   - destruct (Hn _ Er) as [H1 _]. rewrite H1 in Hvo. contradiction.
 Qed.
 
-(* ------------------------------------------------------------------ the defect *)
-(* a refused update leaves its snapshot behind *)
-Definition ops_refused : list vop := [VCreate [(CA, VInt 1)]; VAssign 1 CA (VStr [120%N])].
+(* an update refused by validation changes nothing, in every history *)
+Lemma hist_invalid_noop ops w :
+  In w (vrun vinit ops) -> w_out w = VExn XInvalid -> w_post w = w_pre w.
+Proof.
+  intros Hin Ho. pose proof (vrun_is_step ops vinit w Hin) as Hs. unfold is_vstep in Hs. rewrite Ho in Hs.
+  symmetry in Hs. destruct (w_op w) as [kw0|m c v|m kw0|vid]; unfold vstep in Hs.
+  - destruct (fill_defaults all_cols (mk_kw kw0)) as [kw2|]; [|discriminate].
+    destruct (negb (validate kw2)); [inversion Hs; reflexivity|].
+    destruct (a_conflict None kw2 _); discriminate.
+  - exact (vupdate_invalid _ _ _ _ Hs).
+  - exact (vupdate_invalid _ _ _ _ Hs).
+  - destruct (find_version vid _) as [ver|]; [exact (vupdate_invalid _ _ _ _ Hs)|discriminate].
+Qed.
+
+(* ------------------------------------------------------------------ the open defect *)
+(* an update the DATABASE refuses (UNIQUE(a)) after validation passed leaves its snapshot behind *)
+Definition ops_refused : list vop := [VCreate [(CA, VInt 1)]; VCreate [(CA, VInt 2)]; VAssign 2 CA (VInt 1)].
 Definition full_history_inv : Prop :=
   forall ops w m r, In w (vrun vinit ops) -> row_of m (m_tbl (w_post w)) = Some r ->
     map v_vals (versions_of m (w_post w)) ++ [r] = hist_of m (w_post w).
 Lemma full_history_inv_refuted : ~ full_history_inv.
 Proof.
   intros H.
-  specialize (H ops_refused (nth 1 (vrun vinit ops_refused) {| w_pre := vinit; w_op := VRestore 0; w_out := VDone; w_post := vinit |})
-                1 [(CA, VInt 1); (CB, VNull); (CC, VInt 7)]).
-  vm_compute in H. specialize (H (or_intror (or_introl eq_refl)) eq_refl). discriminate H.
+  specialize (H ops_refused (nth 2 (vrun vinit ops_refused) {| w_pre := vinit; w_op := VRestore 0; w_out := VDone; w_post := vinit |})
+                2 [(CA, VInt 2); (CB, VNull); (CC, VInt 7)]).
+  vm_compute in H. specialize (H (or_intror (or_intror (or_introl eq_refl))) eq_refl). discriminate H.
 Qed.
 Lemma refused_witness :
-  exists w, In w (vrun vinit ops_refused) /\ w_out w = VExn XInvalid
+  exists w, In w (vrun vinit ops_refused) /\ w_out w = VExn XDuplicate
     /\ m_tbl (w_post w) = m_tbl (w_pre w)
-    /\ length (versions_of 1 (w_post w)) = S (length (versions_of 1 (w_pre w))).
-Proof. eexists. split; [right; left; reflexivity|]. repeat split. Qed.
+    /\ length (versions_of 2 (w_post w)) = S (length (versions_of 2 (w_pre w))).
+Proof. eexists. split; [right; right; left; reflexivity|]. repeat split. Qed.
+(* the fixed one (6e91999), kept as a regression *)
+Definition ops_invalid : list vop := [VCreate [(CA, VInt 1)]; VAssign 1 CA (VStr [120%N])].
